@@ -2,7 +2,7 @@
 # tools_seedcheck.sh CNN [check-id ...]  — confirm a seeded change in /tmp/seed/CNN and run our check(s) against it.
 # Never touches /repo: the checks run with VERIF_REPO pointing at the scratch worktree (patch applied there).
 ID=$1; shift; CHECKS="${@:-$ID}"
-WT=/tmp/seed/$ID; OUT=$WT/out; DST=/verif/seeded/$ID
+SEEDROOT=${SEEDROOT:-/tmp/seed}; WT=$SEEDROOT/$ID; OUT=$WT/out; DST=/verif/seeded/$ID
 [ -f $OUT/patch.diff ] || { echo "no patch"; exit 2; }
 cd $WT || exit 2
 export PYTHONPATH=$WT
@@ -15,24 +15,24 @@ if [ "$(git rev-parse HEAD)" != "$HEAD" ]; then
   git reset -q 2>/dev/null
 fi
 git diff --quiet -- luna && { echo "worktree has no change applied; applying patch"; git apply $OUT/patch.diff || exit 2; }
-echo "== demo with change (expect non-zero)"; timeout 900 /venv/bin/python -W ignore out/demo.py > /tmp/seed/$ID.demo_with.log 2>&1; WITH=$?; echo "exit $WITH"; tail -3 /tmp/seed/$ID.demo_with.log
+echo "== demo with change (expect non-zero)"; timeout 900 /venv/bin/python -W ignore out/demo.py > $SEEDROOT/$ID.demo_with.log 2>&1; WITH=$?; echo "exit $WITH"; tail -3 $SEEDROOT/$ID.demo_with.log
 echo "== luna tests with change (expect 93 passed)"; T=$(timeout 1800 /venv/bin/python -m pytest -q -p no:cacheprovider --timeout=900 tests 2>&1 | tail -1); echo "$T"
-git diff -- luna > /tmp/seed/$ID.applied.diff
-git apply -R /tmp/seed/$ID.applied.diff
-echo "== demo without change (expect 0)"; timeout 900 /venv/bin/python -W ignore out/demo.py > /tmp/seed/$ID.demo_without.log 2>&1; WITHOUT=$?; echo "exit $WITHOUT"; tail -2 /tmp/seed/$ID.demo_without.log
-git apply /tmp/seed/$ID.applied.diff
+git diff -- luna > $SEEDROOT/$ID.applied.diff
+git apply -R $SEEDROOT/$ID.applied.diff
+echo "== demo without change (expect 0)"; timeout 900 /venv/bin/python -W ignore out/demo.py > $SEEDROOT/$ID.demo_without.log 2>&1; WITHOUT=$?; echo "exit $WITHOUT"; tail -2 $SEEDROOT/$ID.demo_without.log
+git apply $SEEDROOT/$ID.applied.diff
 unset PYTHONPATH
 cd /verif
 RES=""
 for C in $CHECKS; do
   echo "== ./check $C against seeded tree"
-  VERIF_REPO=$WT ./check $C --no-evidence > /tmp/seed/$ID.check_$C.log 2>&1; RC=$?
-  grep -E "VIOLATION|HARNESS|failure|exit=" /tmp/seed/$ID.check_$C.log | head -5
+  VERIF_REPO=$WT ./check $C --no-evidence > $SEEDROOT/$ID.check_$C.log 2>&1; RC=$?
+  grep -E "VIOLATION|HARNESS|failure|exit=" $SEEDROOT/$ID.check_$C.log | head -5
   RES="$RES $C:$RC"
 done
 echo "SUMMARY $ID demo_with=$WITH demo_without=$WITHOUT tests='$T' checks=$RES"
 # archive under /verif/seeded/<id>/
-mkdir -p $DST && cp /tmp/seed/$ID.applied.diff $DST/patch.diff && cp $OUT/demo.py $DST/ && cp $OUT/notes.md $DST/notes.md 2>/dev/null
+mkdir -p $DST && cp $SEEDROOT/$ID.applied.diff $DST/patch.diff && cp $OUT/demo.py $DST/ && cp $OUT/notes.md $DST/notes.md 2>/dev/null
 NEEDS="${NEEDS:-see notes.md}"
 /venv/bin/python - "$ID" "$WITH" "$WITHOUT" "$T" "$RES" "$NEEDS" <<'PY'
 import json, sys
